@@ -157,6 +157,33 @@ class Env:
         return {'equal': m_equal, 'is_typename': m_is_typename, 'find_typedef': lambda it, ctx, c, a: 0}
 
 
+def pure_walks(u):
+    """functions of the unit that only read: no call at all, no store except to their own locals and parameters, no global variable mentioned.  Such a
+    function (a walk over ty->base looking for a kind, say) is a function of its arguments and of the objects they point to; on concrete witness objects
+    Engine I can simply follow it, whoever else calls it."""
+    out = set()
+    for f, fd in u.functions.items():
+        own = set(d.id for d in fd.walk() if d.kind in ('VarDecl', 'ParmVarDecl'))
+        ok = u.body(f) is not None
+        for n in fd.walk():
+            if not ok:
+                break
+            if n.kind in ('CallExpr', 'StmtExpr', 'GCCAsmStmt', 'VAArgExpr', 'AtomicExpr'):
+                ok = False
+            elif n.kind == 'DeclRefExpr' and n.ref_kind in ('VarDecl', 'ParmVarDecl') and n.ref_id not in own:
+                ok = False
+            elif n.kind == 'VarDecl' and ('static' in (n.d.get('storageClass') or '')):
+                ok = False
+            elif (n.kind in ('BinaryOperator', 'CompoundAssignOperator') and (n.opcode or '').endswith('=') and n.opcode not in ('==', '!=', '<=', '>=')) \
+                    or (n.kind == 'UnaryOperator' and n.opcode in ('++', '--')):
+                t = n.inner[0].strip()
+                if not (t.kind == 'DeclRefExpr' and t.ref_id in own):
+                    ok = False
+        if ok:
+            out.add(f)
+    return out
+
+
 def _msg(out):
     """message of a ('noreturn', fn, args, line) outcome"""
     for a in out[2]:
@@ -799,6 +826,7 @@ def r1315_typing(P, rep, rule='R13.15'):
     if u.fn('struct_members') is None or [(p.type or '').replace(' ', '') for p in u.params('struct_members')] != ['Token**', 'Token*', 'Type*']:
         rep.undecided(rule, '%s:struct_members:anchor' % PU, 'struct_members(Token **rest, Token *tok, Type *ty) vanished')
     else:
+        pure = pure_walks(u) - set(env.token_models())
         for t in ('bool', 'int', 'uint'):
             def h_declspec(it, ctx, c, a, t=t):
                 if not a or not isinstance(a[0], _Ref) or not isinstance(a[1], Obj):
@@ -817,7 +845,9 @@ def r1315_typing(P, rep, rule='R13.15'):
             def h_const_expr(it, ctx, c, a):
                 a[0].place.set(it, a[1].fields.get('next'))
                 return 3
-            it = env.interp(('struct_members', 'is_integer', 'skip', 'consume'), cut={'declspec': h_declspec, 'declarator': h_declarator, 'const_expr': h_const_expr}, models=env.token_models())
+            # read-only helpers that struct_members shares with other functions (is_variably_modified: a walk over ty->base) are followed on the concrete member type
+            walks = tuple(sorted(c.callee() for c in u.fn('struct_members').calls() if c.callee() in pure))
+            it = env.interp(('struct_members', 'is_integer', 'skip', 'consume') + walks, cut={'declspec': h_declspec, 'declarator': h_declarator, 'const_expr': h_const_expr}, models=env.token_models())
             cls = {'bool': '_Bool', 'int': 'signed-int', 'uint': 'unsigned-int'}[t]
             _judge(R, it, '%s:struct_members:bit-field/%s' % (PU, cls), 'struct_members', lambda ctx: [_Ref(_ValPlace(0)), env.tokens(['int', 'x', ':', '3', ';', '}', ';']), tys.make('struct')],
                    'the member declaration `T x : 3;` with T = `%s`' % t, '6.7.2.1p5: a bit-field shall have type _Bool, signed int or unsigned int (others are implementation-defined and not judged)')
